@@ -11,7 +11,7 @@ RICH = {
     "basic": {
         "/w/main.td": 'include "base.td"\ninclude "ops.td"\n\n// doc for Add\n// second line\nclass Add<int a, int b = 2> : Base<a>, Named<"add"> {\n  int sum = !add(a, b);\n  let width = 8;\n  string s = name # "_x";\n  defvar tmp = !mul(a, 2);\n  int twice = tmp;\n  assert !gt(a, 0), "positive";\n}\n\ndef add1 : Add<1>;\ndef add2 : Add<1, 3> { let sum = 5; }\ndefvar top = add1.sum;\ndef user { int v = top; Base b = add1; list<Base> bs = [add1, add2]; }\nforeach i = [1, 2, 3] in {\n  def f#i : Add<i>;\n}\nforeach j = 0...3 in def g#j : Base<j>;\nif !eq(top, 3) then { def yes : Base<1>; } else { def no : Base<0>; }\nlet width = 16 in { def wide : Base<2>; }\ndefset list<Base> all = {\n  def s1 : Base<1>;\n  def s2 : Base<2>;\n}\nmulticlass M<int k> {\n  def _a : Base<k>;\n  def _b : Add<k, k>;\n}\ndefm inst : M<4>;\ndump top;\n',
         "/w/base.td": '// the base\nclass Base<int w> {\n  int width = w;\n  bits<4> enc = {0, 0, 1, 1};\n  bit flag = enc{0};\n  list<int> l = [1, 2, 3];\n  int first = l[0];\n  dag d = (ops w:$x, 1);\n  code c = [{ return; }];\n}\ndef ops;\n',
-        "/w/ops.td": 'class Named<string n> { string name = n; }\nclass Pair<int x, string y> { int fst = x; string snd = y; }\ndef p : Pair<1, "a"> { int q = !foldl(0, [1, 2], acc, e, !add(acc, e)); list<int> m = !foreach(x, [1, 2], !add(x, 1)); list<int> f = !filter(x, [1, 2], !gt(x, 1)); int c = !cond(!eq(fst, 1): 1, true: 0); }\n',
+        "/w/ops.td": 'class Named<string n> { string name = n; }\nclass Pair<int x, string y> { int fst = x; string snd = y; }\ndef p : Pair<1, "a"> { int q = !foldl(0, [1, 2], acc, e, !add(acc, e)); list<int> m = !foreach(x, [1, 2], !add(x, 1)); list<int> f = !filter(x, [1, 2], !gt(x, 1)); list<int> m2 = !foreach(y , [1, 2], !add(y, 1)); list<int> f2 = !filter(z /* kept */ , [1, 2], !gt(z, 1)); int q2 = !foldl(0, [1, 2], acc2 /* running */\n    , e2 , !add(acc2, e2)); int c = !cond(!eq(fst, 1): 1, true: 0); }\n',
     },
     "diamond": {
         "/w/main.td": 'include "a.td"\ninclude "b.td"\ndef top : A, B;\ndef use { D x = dd; }\n',
@@ -43,6 +43,11 @@ RICH = {
                       '#ifdef NOPE\n日本語 tokens ü\n#endif\nmulticlass M { def a; } /*é*/\nif 1 then {\n  def t;\n} /* 日本 */ else {\n  def u;\n}\n// 終わり',
         "/w/sub.td": 'class S {\n}\n// 日本語',
     },
+    # an include inside a defset body: the header's defs join the defset of ANOTHER file
+    "defset-include": {
+        "/w/main.td": 'class B;\ndefset list<B> all = {\n  include "members.td"\n  def own : B;\n}\ndef after : B;\n',
+        "/w/members.td": '// the members, declared in a header that is longer than the file that includes it .............................\ndef m1 : B;\ndef m2 : B { int x = 1; }\nclass Inner { int y = 2; }\n',
+    },
     "stress": {
         "/w/main.td": 'class A : A { let x = 1; }\nclass B;\nclass B<int n> : B { int n2 = n; }\nclass C<int C> { int C2 = C; }\ndef C : C<1>;\ndef d { int d = 1; int e = d; }\nclass F { int f = f; }\ndef : F;\ndef : F { let f = 2; }\ndefm : Nope<1>;\ndefm named : Nope;\nmulticlass M2 : M2 { def x; }\nmulticlass M3<int a> : M2 { defm y : M3<a>; }\nlet nosuch = 1 in def q;\nclass G<int g = g> ;\nclass H : G<1, 2, 3>, G<"s">, Missing<1>;\ndef h { int a = !add(1); int b = !add(1, "s"); int c = nope; int e = h.a.b; list<int> l = [1, "a"]; int s = l[0][1]; }\nforeach i = i in def r#i;\nforeach k = [] in def;\ndefset list<Missing> ds = { def in_ds; }\ndefset int bad = { }\ndefvar v = v;\ndefvar v = 1;\nassert v, v;\n',
     },
@@ -56,6 +61,9 @@ STRESS_SNIPPETS = [
     "class A { int x = !foreach(x, [1], x); }", "class A { int x = !foldl(x, x, x, x, x); }", "def x { int y = !filter(a, [1], a); }",
     "class A<int x = !cond(x: x)>;", "def A; class A : A;", "defset list<int> s = { defset list<int> s = { def s; } }",
     "if 1 then if 2 then def a; else def b;", "class A { field int x = ?; } def d : A { let x{0...1} = 3; }",
+    "def x { list<int> f = !filter(0, [1, 2], 1); int y = 1; }\ndefvar z = 1;", "def x { list<int> f = !foreach(0, [1, 2], 1); int y = 1; }\ndefvar z = 1;",
+    "def x { int f = !foldl(0, [1, 2], 0, 0, 1); int y = f; }\ndefvar z = 1;", "class Reg<int num>; def R0 : Reg<0 = 1, 2>; def R1 : Reg<1 = 1>; def R2 : Reg<x = 1, 2, 3>;",
+    "class Reg<int num>; def R0 : Reg<, 2>; def R1 : Reg<1, , 2>; defvar v = Reg<= 1, 2>;", "defvar v = !cond(: 1, 1: ); def d { int f = !if(, 1, 2); int g = 1; }",
     "class A<A a>;", "class A<list<A> a = [a]>;", "def x : x<x> { x x = x; }", "include \"main.td\"", "include \"nofile.td\"\ndef a;",
     "class A<int n>; def d : A<n = 1>; def e : A<\"n\" = 1, \"n\" = 2>; def f : A<\"m\" = 1>;", "def d { int x = NAME; string s = NAME; }",
     "class A { dag d = (A A:$A, $b); } def e : A { let d = (e e); }", "def x { bits<2> b = {1, 0}; bit c = b{5}; int i = b{0}{0}; }",
